@@ -363,6 +363,30 @@ impl World {
         Ok(resp.messages.len())
     }
 
+    /// The chain admin migrates a contract to the same code: its `migrate` entry point runs (atomic).
+    pub fn migrate(&mut self, contract: &str) -> R<Vec<Ev>> {
+        let snapshot = self.clone();
+        let t0 = self.trace.len();
+        let kind = self.contracts.get(contract).ok_or(format!("no such contract {}", contract))?.0;
+        let r = (|| -> R<()> {
+            let resp = self.call(kind, contract, "chainadmin", vec![], Call::Migrate)?;
+            for sm in resp.messages {
+                self.dispatch(contract, sm.msg, 1)?;
+            }
+            Ok(())
+        })();
+        match r {
+            Ok(()) => Ok(self.trace[t0..].to_vec()),
+            Err(e) => {
+                let (uns, pan) = (self.unsupported.clone(), self.panics);
+                *self = snapshot;
+                self.unsupported = uns;
+                self.panics = pan;
+                Err(e)
+            }
+        }
+    }
+
     pub fn register_stub(&mut self, kind: Kind, addr: &str) {
         self.contracts.insert(addr.to_string(), (kind, Store::default()));
     }
@@ -689,24 +713,32 @@ impl World {
 pub enum Call {
     Instantiate(Binary),
     Execute(Binary),
+    /// the contract's `migrate` entry point with an empty message (an upgrade to the same code)
+    Migrate,
 }
 
 fn run(kind: Kind, deps: DepsMut, env: Env, info: MessageInfo, call: Call) -> R<Response> {
     macro_rules! go {
-        ($m:path) => {{
+        ($m:path, $mig:expr) => {{
             use $m as c;
             match call {
                 Call::Instantiate(b) => c::instantiate(deps, env, info, from_json(&b).map_err(|e| e.to_string())?)
                     .map_err(|e| e.to_string()),
                 Call::Execute(b) => c::execute(deps, env, info, from_json(&b).map_err(|e| e.to_string())?)
                     .map_err(|e| e.to_string()),
+                Call::Migrate => $mig(deps, env),
             }
+        }};
+        ($m:path) => {{
+            use $m as c2;
+            go!($m, |d: DepsMut, e: Env| c2::migrate(d, e, from_json(b"{}").map_err(|e| e.to_string())?).map_err(|e| e.to_string()))
         }};
     }
     match kind {
         Kind::Hub => go!(basset_sei_hub::contract),
         Kind::Bsei => go!(basset_sei_token_bsei::contract),
-        Kind::Stsei => go!(basset_sei_token_stsei::contract),
+        // the stSei token has no migrate entry point
+        Kind::Stsei => go!(basset_sei_token_stsei::contract, |_d: DepsMut, _e: Env| -> R<Response> { Err("no migrate entry point".into()) }),
         Kind::Reward => go!(basset_sei_reward::contract),
         Kind::Dispatcher => go!(basset_sei_rewards_dispatcher::contract),
         Kind::Registry => go!(basset_sei_validators_registry::contract),
